@@ -52,23 +52,30 @@ theorem C13_range_eq_drop_fails : ¬ RangeEqDrop := by
   have := h [] 0
   simp [productFrom, chunkKeys, product] at this
 
-/-- (b'') Region stores advertise `source.npartitions` but run one task per target block met by the
-region.  Full statement (for every region the code accepts: aligned start, any source chunking): -/
-def RegionCountEq : Prop :=
-  ∀ axes : List (Nat × Nat × Nat × Nat),
-    (∀ a ∈ axes, 0 < a.2.2.1 ∧ 0 < a.2.2.2 ∧ a.1 % a.2.2.2 = 0 ∧ a.1 ≤ a.2.1) →
-    regionAdvertised axes = regionReal axes
-
-/-- it holds when the source is chunked like the target (the precondition under which a region store
-is correct at all, C11) … -/
-theorem C13_region_count_partial (axes : List (Nat × Nat × Nat × Nat))
-    (h : ∀ a ∈ axes, 0 < a.2.2.2 ∧ a.2.2.1 = a.2.2.2 ∧ a.1 % a.2.2.2 = 0 ∧ a.1 ≤ a.2.1) :
+/-- (b'') **Region stores advertise the number of tasks they run.**  `_store_array` rechunks the source
+to the target's chunks when they differ and then advertises `source.npartitions`; its task iterable has
+one element per target block met by the region.  For every region the code accepts (positive target
+chunks, chunk-aligned start; axes are `(start, stop, source chunk, target chunk)`), whatever the
+chunking of the source: -/
+theorem C13_region_count (axes : List (Nat × Nat × Nat × Nat))
+    (h : ∀ a ∈ axes, 0 < a.2.2.2 ∧ a.1 % a.2.2.2 = 0 ∧ a.1 ≤ a.2.1) :
     regionAdvertised axes = regionReal axes :=
   region_count_eq axes h
 
-/-- … and fails otherwise: a source of one chunk of 4 stored into `[0,4)` of a target with chunks of 2
-advertises 1 task and runs 2 (`cubed.to_zarr(x, z, region=(slice(0, 4),))`, accepted silently). -/
-theorem C13_region_count_fails : ¬ RegionCountEq := by
+/-- What the fix (repository commit ba97b91) repaired: the variant without the inserted rechunk
+(`regionAdvertisedOld`, `source.npartitions` of the source as given) was right only for sources chunked
+like the target … -/
+theorem C13_region_count_before_fix_equal_chunks (axes : List (Nat × Nat × Nat × Nat))
+    (h : ∀ a ∈ axes, 0 < a.2.2.2 ∧ a.2.2.1 = a.2.2.2 ∧ a.1 % a.2.2.2 = 0 ∧ a.1 ≤ a.2.1) :
+    regionAdvertisedOld axes = regionReal axes :=
+  region_count_old_eq axes h
+
+/-- … and wrong otherwise: a source of one chunk of 4 stored into `[0,4)` of a target with chunks of 2
+advertised 1 task and ran 2.  A recurrence of this on the tree under test is a violation. -/
+theorem C13_region_count_before_fix_wrong :
+    ¬ ∀ axes : List (Nat × Nat × Nat × Nat),
+      (∀ a ∈ axes, 0 < a.2.2.1 ∧ 0 < a.2.2.2 ∧ a.1 % a.2.2.2 = 0 ∧ a.1 ≤ a.2.1) →
+      regionAdvertisedOld axes = regionReal axes := by
   intro h
   have := h [(0, 4, 4, 2)] (by intro a ha; simp at ha; subst ha; decide)
   revert this; decide
@@ -137,7 +144,7 @@ theorem C13_accepts_sound (d : Dag) (sched : List (List Nat)) (tr : List Event)
 /-- (h) **Tie to the source** (facts regenerated by `harness/extract_c13.py` on every run): blockwise ops
 count the same chunk grid they enumerate (`math.prod(len(c) for c in X)` next to `ChunkKeys(X)`), only when the
 caller gave no count, and pass both on; fused ops keep the successor's iterable and count; a region store
-advertises `source.npartitions` for `OutputBlocksIterable` (see (b'')); create-arrays counts its own list;
+rechunks the source to the target's chunks and then advertises `source.npartitions` for `OutputBlocksIterable` (see (b'')); create-arrays counts its own list;
 the plan total accumulates the advertised counts; compute-start / -end bracket the executor's run. -/
 theorem C13_code_shape :
     GeneratedC13.blockwiseCountSource = GeneratedC13.blockwiseMappableSource ∧
@@ -145,6 +152,8 @@ theorem C13_code_shape :
     GeneratedC13.blockwisePassesCount = true ∧ GeneratedC13.blockwisePassesMappable = true ∧
     GeneratedC13.fuseKeepsSuccessorTasks = true ∧ GeneratedC13.fuseMultipleKeepsSuccessorTasks = true ∧
     GeneratedC13.regionCountSource = "source.npartitions" ∧
+    GeneratedC13.regionRechunksSource = true ∧
+    GeneratedC13.regionChunksizeSource = "to_chunksize(normalize_chunks(chunks, source.shape, dtype=source.dtype))" ∧
     GeneratedC13.regionBlocksSource = "OutputBlocksIterable(region, shape, chunks)" ∧
     GeneratedC13.createCountIsLenOfMappable = true ∧
     GeneratedC13.planTotalAccumulates = true ∧
@@ -158,7 +167,8 @@ example : productFrom [2, 3] 4 = [[1,1],[1,2]] := by decide
 example : chunkKeysRange [2, 3] 3 (some 5) = [[1,0],[1,1]] := by decide
 example : InGrid [1, 2] [2, 3] := by simp [InGrid]
 example : regionAdvertised [(2, 6, 2, 2), (0, 3, 3, 3)] = 2 ∧ regionReal [(2, 6, 2, 2), (0, 3, 3, 3)] = 2 := by decide
-example : regionAdvertised [(0, 4, 1, 2)] = 4 ∧ regionReal [(0, 4, 1, 2)] = 2 := by decide
+example : regionAdvertised [(0, 4, 1, 2)] = 2 ∧ regionReal [(0, 4, 1, 2)] = 2 ∧ regionAdvertisedOld [(0, 4, 1, 2)] = 4 := by decide
+example : regionAdvertised [(0, 4, 4, 2), (3, 5, 1, 3)] = 2 ∧ regionReal [(0, 4, 4, 2), (3, 5, 1, 3)] = 2 := by decide
 
 /-- two independent ops (1: 2 tasks, 2: 1 task) after create-arrays (0: 2 tasks) -/
 def exDag : Dag :=
